@@ -181,6 +181,7 @@ impl<'a, SlotType: 'a + Debug> MetaPublisher<'a, SlotType> for MMapMeta<'a, Slot
         let mutable_self = unsafe { &mut *(*(self as *const Self as *const std::cell::UnsafeCell<Self>)).get() };
         let tail = self.mmap_contents.publisher_tail.fetch_add(1, Relaxed);
         let slot = unsafe { mutable_self.buffer.get_unchecked_mut(tail) };
+        #[cfg(feature = "verif")] crate::verif::yield_point("mmap.slot_write");
         setter(slot);
         while self.mmap_contents.consumer_tail.compare_exchange_weak(tail, tail+1, Relaxed, Relaxed).is_err() {
             std::hint::spin_loop();
@@ -282,6 +283,7 @@ impl<'a, SlotType: 'a + Debug> MetaSubscriber<'a, SlotType> for MMapMetaDynamicS
         }
         let slot_ref = unsafe { mutable_self.buffer.get_unchecked(head) };
         report_len_after_dequeueing_fn((tail - head) as i32);
+        #[cfg(feature = "verif")] crate::verif::yield_point("mmap.slot_read");
         Some(getter_fn(slot_ref))
     }
 
@@ -339,6 +341,7 @@ impl<'a, SlotType: 'a + Debug> MetaSubscriber<'a, SlotType> for MMapMetaFixedSub
         }
         let slot_ref = unsafe { mutable_self.buffer.get_unchecked(head) };
         report_len_after_dequeueing_fn((self.fixed_tail - head) as i32);
+        #[cfg(feature = "verif")] crate::verif::yield_point("mmap.slot_read");
         Some(getter_fn(slot_ref))
     }
 
